@@ -6,8 +6,9 @@ package translator
 
 // ---- C14: the passthrough interface as seen by the handler.
 // native(ty): the profile of endpoint type ty declares native Anthropic support (a deterministic lookup).
-//@ interface ProfileLookup.GetAnthropicSupport
-//@   ensures res == purecall("ProfileLookup.GetAnthropicSupport", "*domain.AnthropicSupportConfig", endpointType)
+//@ interface ProfileLookup.GetAnthropicSupport(endpointType)
+//@   modifies ghost forName
+//@   ensures res == anthOf(endpointType)
 
 //@ interface PassthroughCapable.CanPassthrough
 //@   ensures res ==> len(endpoints) > 0
